@@ -454,7 +454,9 @@ def decorate(case):
                     k = r.random()
                     if k < 0.45 and drops[pid]:
                         out.append(['rattrdel', pid, r.choice(drops[pid])])
-                    elif k < 0.85 or nested or offline[0] or not n.startswith('device_'):
+                    elif k < 0.85 or nested or offline[0] or case.get('mode') == 'push' or not n.startswith('device_'):
+                        # (a webhook-driven slave is never online for the master: an edit through the master would
+                        # become a pending edit, which is C13's subject and generated there)
                         out.append(['rattrset', pid, n, r.choice(cands[pid][n])])
                     else:
                         out += [['mattr', pid, n, r.choice(cands[pid][n])], ['wait', 1]]
